@@ -640,6 +640,13 @@ func checkC04(c *Ctx) {
 			return
 		}
 		c.Count("nil_spec_requests", 1)
+		// (a nil OCI spec is refused whatever the request, the empty one included)
+		if u0, e0 := cache.InjectDevices(nil); e0 == nil || len(u0) != 0 {
+			cs.Violation("nil-spec", nil, fmt.Sprintf("InjectDevices(nil) with an empty request = %q, %v; expected an error and no names", u0, e0), nil)
+		}
+		if u1, e1 := cache.InjectDevices(nil, []string{}...); e1 == nil || len(u1) != 0 {
+			cs.Violation("nil-spec", nil, fmt.Sprintf("InjectDevices(nil, []string{}...) = %q, %v; expected an error and no names", u1, e1), nil)
+		}
 		if ierr == nil || !reflect.DeepEqual(unres, req) {
 			cs.Violation("nil-spec", nil, fmt.Sprintf("InjectDevices(nil, %q) = %q, %v; expected an error and the whole request", req, unres, ierr), nil)
 		}
